@@ -308,10 +308,14 @@ def _safe_remove(el: etree.Element):
 
 
 def _id_of_target(url):
-    match = re.match(r"^url[(]#([\w-]+)[)]$", url)
+    # <funciri> as CSS writes it: optional white space and quotes around the
+    # reference, any id that XML allows, an optional fallback after it
+    match = re.match(
+        r"""^\s*url[(]\s*(['"]?)#([^)'"\s]+)\1\s*[)](?:\s.*)?$""", url, re.DOTALL
+    )
     if not match:
         raise ValueError(f'Unrecognized url "{url}"')
-    return match.group(1)
+    return match.group(2)
 
 
 def _xpath_for_url(url, el_tag):
@@ -1341,7 +1345,7 @@ class SVG:
             for el in self.xpath("//svg:text | //svg:tspan | //svg:textPath")
         )
         for fill in fills:
-            if fill.startswith("url("):
+            if fill.lstrip().startswith("url("):
                 try:
                     el = self.resolve_url(fill, "*")
                 except ValueError:  # skip not found
